@@ -113,9 +113,17 @@ def check_enum(case):
         raise Violation("binarize.count", observed=len(results), expected=expected_count)
     seen = Counter()
     for r in results:
+        # each refinement is a tree of its own: every node is the parent of its children, no node is shared with another
+        for node in r.traverse():
+            for child in node.children:
+                if child.up is not node:
+                    raise Violation("binarize.parent-link-broken", observed=f"child {child.name!r} of {node.name!r}", expected="child.up is its parent")
         pt = from_ete(r)
         check_refinement(orig, _keep_unnamed(pt), "binarize")
         seen[pt.clades()] += 1
+    ids = Counter(id(node) for r in results for node in r.traverse())
+    if any(v > 1 for v in ids.values()):
+        raise Violation("binarize.node-shared-between-refinements", observed=sum(1 for v in ids.values() if v > 1), expected=0)
     if any(v > 1 for v in seen.values()):
         raise Violation("binarize.duplicate", observed=max(seen.values()), expected=1)
     exp = _clades_of_refinements(orig)
